@@ -88,8 +88,10 @@ CLAIMS = {
     "C11": C("Proved for an arbitrary bijection standing for the completion order: get_pool_results returns every future's value exactly once; "
              "pooled _generate_agents / _greedy_select_population give a permutation of the serial outcome (none lost, none duplicated), so the "
              "permutation-invariant guarantees transfer; RNG ownership: a random-drawing callable submitted to a process pool seeds its own "
-             "stream (ghost check); EFF POOL-pure: submitted callables write nothing of the optimizer. Not applicable part: real interleavings "
-             "and 'pairwise distinct' (probabilistic). Bounded: thread / process runs with the C01-C03, C05, C10 monitors and duplicate counts.",
+             "stream (ghost check); EFF POOL-pure: the callables a pool worker runs (the base class's and every override) write nothing of the "
+             "optimizer. Not applicable part: real interleavings and 'pairwise distinct' (probabilistic). Bounded: thread / process runs "
+             "(2 to 16 workers, more workers than agents, ties) with the C01-C03, C05, C10 monitors and duplicate counts, also as the first "
+             "use of multiprocessing in a fresh interpreter.",
              NOTE_VC + "concurrent.futures axioms; thread-safety of numpy's global RNG assumed. ", TECH_VC + "; " + TECH_EFF + "; " + TECH_BND),
     "C12": C("Proved: _fcn flips the sign exactly once on the way in, the result constructors exactly once on the way out (costs exact negatives), "
              "helpers rank internal costs in the default direction; EFF READS-dir: no optimizer other than the committed exclusions (AntLion "
